@@ -367,7 +367,7 @@ func (e *Engine) runPath(fn *ssa.Function, prefix []int, solver *Solver, opt Opt
 				pr.outcome = OutcomePruned
 				return
 			}
-			p.violation("no-panic", m, "uncaught panic: "+msg)
+			p.violation("no-panic", m, "uncaught panic: "+msg+" at "+strings.Join(i.panicTrace, " <- "))
 			pr.outcome = OutcomePanic
 			pr.outcomeMsg = msg
 		case engineError:
